@@ -1,11 +1,15 @@
 import Pike.Model.Key
 import Pike.Lemmas.LRU
+import Pike.Facts
 /-
 C06 — cache keys isolate method, host and the full request URI.
 -/
 namespace Pike
 namespace C06
 open Key LRU
+
+/-- Obligation on the extracted facts: pike's own code uses no `sync.Pool` — a key, and the entry object looked up for it, is not a view of memory that a later request reuses (the models treat them as immutable values). -/
+theorem facts_no_pooled_buffers : Facts.syncPoolSites = [] := by decide
 
 /-- Obligation on the extracted layout of `getKey`: it builds METHOD SP HOST SP URI in a freshly
 allocated buffer of exactly the right length. -/
